@@ -339,6 +339,92 @@ def stateful_reuse():
     return out
 
 
+def methods_on_variables_and_rules():
+    """The same operations spelled as METHODS / reflected operators of variables, variable slices, decision rules and
+    rule slices (the front ends in math.py convert to Affine first, so these classes' own methods are separate code)."""
+    out = []
+
+    def env_x(c):
+        env = Env(c, (2, 3), sy=(2, 2), sz=(2, 3))
+        return env
+    k23 = lambda env: env.const((2, 3), "k")                                  # noqa: E731
+    cases = [
+        ("Vars.T", lambda e: e.x.T, lambda e: e.vals(e.x).T),
+        ("Vars.tril", lambda e: e.y.tril(), lambda e: np.tril(np.asarray(e.vals(e.y), dtype=object))),
+        ("Vars.triu(1)", lambda e: e.y.triu(1), lambda e: np.triu(np.asarray(e.vals(e.y), dtype=object), 1)),
+        ("Vars.diag", lambda e: e.y.diag(), lambda e: np.diag(np.asarray(e.vals(e.y), dtype=object))),
+        ("Vars.trace", lambda e: e.y.trace(), lambda e: np.trace(np.asarray(e.vals(e.y), dtype=object))),
+        ("VarSub.T", lambda e: e.x[:, 1:].T, lambda e: e.vals(e.x)[:, 1:].T),
+        ("VarSub.reshape", lambda e: e.x[0].reshape((3, 1)), lambda e: e.vals(e.x)[0].reshape((3, 1))),
+        ("VarSub.__getitem__", lambda e: e.x[0:2][1][::2], lambda e: e.vals(e.x)[0:2][1][::2]),
+        ("VarSub.sum(axis)", lambda e: e.x[:, :2].sum(axis=0), lambda e: e.vals(e.x)[:, :2].sum(axis=0)),
+        ("array + VarSub", lambda e: k23(e)[0] + e.x[1], lambda e: k23(e)[0] + e.vals(e.x)[1]),
+        ("array - VarSub", lambda e: k23(e)[0] - e.x[1], lambda e: k23(e)[0] - e.vals(e.x)[1]),
+        ("array @ VarSub", lambda e: k23(e) @ e.x[1], lambda e: k23(e) @ e.vals(e.x)[1]),
+        ("VarSub @ array", lambda e: e.x[1] @ k23(e).T, lambda e: e.vals(e.x)[1] @ k23(e).T),
+    ]
+    for name, rs, npf in cases:
+        def se(c, rs=rs, npf=npf):
+            env = env_x(c)
+            env._k = None
+            return env, {"e": env}, {"e": env}
+        # constants must be the same object in both evaluations: cache on the env
+        def rs_op(o, rs=rs):
+            return rs(_cached(o["e"]))
+        def np_op(v, npf=npf):
+            return npf(_cached(v["e"]))
+        out += _run("rsome.lp:Vars/VarSub.<method>", name, se, rs_op, np_op)
+    if FRONT == "ro":
+        # decision rules y(z) = y0 + Y z of an ro model
+        def env_r(c):
+            env = Env(c, (2, 3), sz=(2,))
+            env.r = env.m.ldr((2, 3))
+            env.r.adapt(env.z)
+            env.r.to_affine()                      # the coefficient columns are declared when the rule is first used
+            nd = env.m.rc_model.last
+            env.xbar = arr([c.fresh_real(f"x{i}_") for i in range(nd)])
+            return env
+        rule_cases = [
+            ("DecRule.T", lambda e: e.r.T, None), ("array + DecRule", lambda e: k23(e) + e.r, lambda e, v: k23(e) + v),
+            ("array - DecRule", lambda e: k23(e) - e.r, lambda e, v: k23(e) - v), ("DecRule - array", lambda e: e.r - k23(e), lambda e, v: v - k23(e)),
+            ("array @ DecRule.T", lambda e: k23(e) @ e.r.T, lambda e, v: k23(e) @ v.T), ("DecRule.sum(0)", lambda e: e.r.sum(axis=0), lambda e, v: v.sum(axis=0)),
+            ("-DecRule", lambda e: -e.r, lambda e, v: -v), ("DecRule * array", lambda e: e.r * k23(e), lambda e, v: v * k23(e)),
+            ("DecRuleSub.T", lambda e: e.r[:, 1:].T, lambda e, v: v[:, 1:].T), ("array + DecRuleSub", lambda e: k23(e)[0] + e.r[1], lambda e, v: k23(e)[0] + v[1]),
+            ("array - DecRuleSub", lambda e: k23(e)[0] - e.r[1], lambda e, v: k23(e)[0] - v[1]), ("DecRuleSub - array", lambda e: e.r[1] - k23(e)[0], lambda e, v: v[1] - k23(e)[0]),
+            ("DecRuleSub @ array", lambda e: e.r[1] @ k23(e).T, lambda e, v: v[1] @ k23(e).T), ("array @ DecRuleSub", lambda e: k23(e) @ e.r[1], lambda e, v: k23(e) @ v[1]),
+            ("DecRuleSub.sum()", lambda e: e.r[0].sum(), lambda e, v: v[0].sum()), ("2 * DecRuleSub", lambda e: 2 * e.r[:, 0], lambda e, v: 2 * v[:, 0]),
+        ]
+        for name, rs, npf in rule_cases:
+            if npf is None:
+                npf = lambda e, v: v.T                                          # noqa: E731
+            def se(c, rs=rs):
+                env = env_r(c)
+                return env, {"e": env}, {"e": env}
+            def rs_op(o, rs=rs):
+                return rs(_cached(o["e"]))
+            def np_op(v, npf=npf):
+                e = _cached(v["e"])
+                return npf(e, np.asarray(e.value(e.r), dtype=object))
+            out += _run("rsome.lp:DecRule/DecRuleSub.<method>", name, se, rs_op, np_op)
+    return out
+
+
+def _cached(env):
+    """`env.const` draws fresh symbols: make the rsome operation and the NumPy oracle see the SAME constant array"""
+    if not getattr(env, "_const_cached", False):
+        real = env.const
+        memo = {}
+
+        def const(shape, name, zeros=False):
+            key = (tuple(shape), name, zeros)
+            if key not in memo:
+                memo[key] = real(shape, name, zeros)
+            return memo[key]
+        env.const = const
+        env._const_cached = True
+    return env
+
+
 def triangular(shapes):
     out = []
     for sv in shapes:
@@ -552,6 +638,8 @@ def jobs(tier):
     js.append({"name": "reshaping", "kind": "reshaping", "shapes": [list(s) for s in sh]})
     js.append({"name": "triangular", "kind": "triangular", "shapes": [[2, 2], [2, 3], [3, 2], [3], [1, 1]]})
     js.append({"name": "stacking", "kind": "stacking"})
+    js.append({"name": "methods", "kind": "methods"})
+    js.append({"name": "dro-methods", "kind": "methods", "front": "dro"})
     js.append({"name": "stateful-reuse", "kind": "reuse"})
     js.append({"name": "dro-stateful-reuse", "kind": "reuse", "front": "dro"})
     js.append({"name": "biaffine", "kind": "biaffine"})
@@ -613,6 +701,8 @@ def _run_job(job):
         return stacking()
     if k == "reuse":
         return stateful_reuse()
+    if k == "methods":
+        return methods_on_variables_and_rules()
     if k == "biaffine":
         return biaffine(None)
     if k == "sparse_const":
